@@ -3,8 +3,9 @@
   Only property theorems live here; helper lemmas are in Glb/Proofs/Relay.lean.
 
   Quantifier (DESIGN.md §4 C15, §8.1): every handler behaviour (list of `writeHeader c | write |
-  panic v | ret`) whose status is set once — i.e. after the status has been set, explicitly or
-  implicitly by the first `Write`, the handler does not call `WriteHeader` again — with codes in
+  flush | panic v | ret`, flushes anywhere) whose status is set once — i.e. after the status has
+  been set, explicitly or implicitly by the first `Write` or `Flush`, the handler does not call
+  `WriteHeader` again — with codes in
   200..599, every panic value other than `http.ErrAbortHandler`, every threshold of the log
   handler, every request.  The two excluded shapes really break "REQ_END.code = status on the
   wire" in the code as it is (net/http keeps the first header, `ResponseWriter.Status` the
@@ -134,7 +135,31 @@ theorem unguarded_500_breaks_truth :
         = [.reqEnd 500 req0] := by
   decide
 
+/-- The pinned commit's `Flush` let net/http send the implicit 200 without recording it in
+    `Status`: a handler that flushes and then panics got Relay's 500 page appended to a 200
+    response and REQ_END said 500.  `Tie.Relay.flush_records_status` excludes this for /repo
+    (fix 065898d), and `relay_contract` covers flushes anywhere in the behaviour. -/
+theorem flush_then_panic_breaks_truth_pinned :
+    (relayWith progPinned 4 req0 [.flush, .panic (.other 1)]).wire = 200
+    ∧ (relayWith progPinned 4 req0 [.flush, .panic (.other 1)]).relay500 = true
+    ∧ (relayWith progPinned 4 req0 [.flush, .panic (.other 1)]).log.filter Rec.isEnd
+        = [.reqEnd 500 req0]
+    ∧ (relay 4 req0 [.flush, .panic (.other 1)]).relay500 = false
+    ∧ (relay 4 req0 [.flush, .panic (.other 1)]).log.filter Rec.isEnd = [.reqEnd 200 req0] := by
+  decide
+
 /-! ### non-vacuity -/
+
+example : InScope [.flush, .write, .flush, .panic (.other 2)] :=
+  ⟨by decide, by intro c hc; simp at hc, by decide⟩
+
+example : InScope [.writeHeader 201, .flush, .write, .flush] :=
+  ⟨by decide, by intro c hc; simp at hc; omega, by decide⟩
+
+/-- flush, then panic: the client already has its 200; no 500, REQ_END says 200 -/
+example : relay 4 req0 [.flush, .panic (.other 2)] =
+    ⟨[.reqBeg req0, .error 2 req0.id, .reqEnd 200 req0], 200, false, none⟩ := by decide
+
 
 example : InScope [.writeHeader 404, .write, .panic (.other 7)] :=
   ⟨by decide, by intro c hc; simp at hc; omega, by decide⟩
